@@ -469,7 +469,9 @@ pub fn generate(thorough: bool, rng: &mut Rng, ops: &mut Vec<String>, stats: &mu
         for _ in 0..n {
             let t = *rng.pick(&[1u8, 1, 3, 3, 3, 4, 4, 2, 0]);
             let h = if rng.chance(2, 3) { "c" } else { "u" };
-            let cb = u8::from(t == 4 && rng.chance(2, 3));
+            // the cacheable flag of a pack is a function of the pack (tree pack or data pack): callers never write a
+            // file as cacheable and remove or read it as non-cacheable, so the flag is derived from the id
+            let cb_of = |t: u8, id: &str| u8::from(t == 4 && !matches!(id.as_bytes()[0], b'0'..=b'4'));
             let fresh = |rng: &mut Rng, pool: &mut Vec<String>| {
                 let id = if !pool.is_empty() && rng.chance(1, 5) {
                     // same two-character prefix as an existing id
@@ -508,13 +510,13 @@ pub fn generate(thorough: bool, rng: &mut Rng, ops: &mut Vec<String>, stats: &mu
                     stats.hit(format!("op.write.{h}"));
                     written.retain(|(a, b, _)| !(*a == t && *b == id));
                     written.push((t, id.clone(), len));
-                    steps.push(format!("w,{h},{t},{id},{cb},{data}"));
+                    steps.push(format!("w,{h},{t},{id},{},{data}", cb_of(t, &id)));
                 }
                 5 | 6 => {
                     let (t, id, _) = known(rng, &written, &mut pool, t);
                     stats.hit(format!("op.remove.{h}"));
                     written.retain(|(a, b, _)| !(*a == t && *b == id));
-                    steps.push(format!("d,{h},{t},{id},{}", u8::from(t == 4 && rng.chance(2, 3))));
+                    steps.push(format!("d,{h},{t},{id},{}", cb_of(t, &id)));
                 }
                 7..=9 => {
                     let (t, id, _) = known(rng, &written, &mut pool, t);
@@ -540,7 +542,7 @@ pub fn generate(thorough: bool, rng: &mut Rng, ops: &mut Vec<String>, stats: &mu
                         }
                     };
                     stats.hit(format!("op.read-partial.{h}"));
-                    steps.push(format!("p,{h},{t},{id},{},{off},{l}", u8::from(t == 4 && rng.chance(2, 3))));
+                    steps.push(format!("p,{h},{t},{id},{},{off},{l}", cb_of(t, &id)));
                 }
                 14..=16 => {
                     stats.hit(format!("op.list.{h}"));
